@@ -21,7 +21,7 @@ import (
 // breaks the obligation that pins the expected lists (Props/C06, C08, C09).
 func doShape(repo, out string) {
 	pkgs := []string{".", "microqr", "rmqr", "internal/bitmap", "internal/bitstream", "internal/reedsolomon", "internal/reedsolomon/element", "internal/reedsolomon/poly"}
-	var panics, writes, imgUses, pvars []string
+	var panics, writes, imgUses, pvars, entry []string
 	hashes := map[string]string{}
 	for _, p := range pkgs {
 		dir := filepath.Join(repo, p)
@@ -136,6 +136,23 @@ func doShape(repo, out string) {
 					continue
 				}
 				full := p + ":" + name
+				// the public entry points that are glue around the modelled core: which functions they call, in order of
+				// first appearance (a wrapper that stops going through the validating entry point changes this list)
+				if (p == "." || p == "microqr" || p == "rmqr") && (name == "Encode" || name == "QRCode.Encode" || name == "New") {
+					seen := map[string]bool{}
+					var calls []string
+					ast.Inspect(fn.Body, func(n ast.Node) bool {
+						if c, ok := n.(*ast.CallExpr); ok {
+							nm := strings.Join(strings.Fields(render(fset, c.Fun)), "")
+							if _, isLit := c.Fun.(*ast.FuncLit); !isLit && !seen[nm] {
+								seen[nm] = true
+								calls = append(calls, nm)
+							}
+						}
+						return true
+					})
+					entry = append(entry, full+" -> "+strings.Join(calls, " "))
+				}
 				// locals shadowing globals: collect declared identifiers (params, := and var)
 				local := map[string]bool{}
 				if fn.Type.Params != nil {
@@ -276,6 +293,8 @@ func doShape(repo, out string) {
 	sort.Strings(pvars)
 	fmt.Fprintf(&sb, "/-- every package-level variable of the library (package:name): the only places where state could live between calls -/\ndef packageVars : List String := %s\n\n", q(pvars))
 	fmt.Fprintf(&sb, "/-- every statement of the library that mentions a package-level table of bitmap images (how the tables are read, cloned, passed on) -/\ndef imageTableUses : List String := %s\n\n", q(imgUses))
+	sort.Strings(entry)
+	fmt.Fprintf(&sb, "/-- the public entry points of the three symbology packages and the functions each calls, in order of first appearance -/\ndef entryCalls : List String := %s\n\n", q(entry))
 	ms := make([]string, len(mismatches))
 	copy(ms, mismatches)
 	fmt.Fprintf(&sb, "def mismatches : List String := %s\n\nend QRV.Gen.Shape\n", q(ms))
